@@ -52,6 +52,13 @@ static int triple_ok_quick(const int *ai, const int *ti)
   int last = -1;
   for (int i = 0; i < 3; i++)
     if (acts[ai[i]] != A_NOOP) last = i;
+  if (last < 0) {
+    /* all noop: the timeouts are documented to be irrelevant (the default policy takes over whatever they say): a few non-zero settings */
+    static const int keep[5][3] = { { 0, 0, 0 }, { 1, 0, 0 }, { 0, 0, 1 }, { 3, 0, 0 }, { 2, 2, 2 } };
+    for (int k = 0; k < 5; k++)
+      if (ti[0] == keep[k][0] && ti[1] == keep[k][1] && ti[2] == keep[k][2]) return 1;
+    return 0;
+  }
   for (int i = 0; i < 3; i++) {
     if (acts[ai[i]] == A_NOOP && ti[i] != 0) return 0;
     if (acts[ai[i]] == A_BAD && ti[i] != 0) return 0;
@@ -77,8 +84,9 @@ static void build_triples(void)
       if (tier == 0) keep = triple_ok_quick(ai, ti);
       else {
         keep = 1;
+        int all_noop = acts[ai[0]] == A_NOOP && acts[ai[1]] == A_NOOP && acts[ai[2]] == A_NOOP;
         for (int i = 0; i < 3; i++)
-          if ((acts[ai[i]] == A_NOOP || acts[ai[i]] == A_BAD) && ti[i] != 0) keep = 0; /* timeout of a noop/out-of-range slot is never read */
+          if ((acts[ai[i]] == A_NOOP || acts[ai[i]] == A_BAD) && ti[i] != 0 && !all_noop) keep = 0; /* timeout of a noop/out-of-range slot is never read (all-noop: every setting, the default policy must take over) */
       }
       if (!keep) continue;
       for (int i = 0; i < 3; i++) { store[tier][n][i] = ai[i]; store[tier][n][3 + i] = ti[i]; }
